@@ -1,174 +1,9 @@
-import Vgi.Model.HttpStream
+import Vgi.Drive.StreamIO
 /-!
-Line-protocol driver for C16 (and the shared parsing / rendering used by the other HTTP stream
-drivers). Script syntax: see `harness/c16.go` and `harness/c16_script.go`.
+Line-protocol driver for C16. Script syntax: see `harness/c16.go`.
 -/
 namespace Vgi.Drive.C16
-open Vgi Vgi.HttpStream Vgi.Generated.C16
-
-/-! ### parsing -/
-
-def hexBytes? (s : String) : Option Bytes := bytesOfHexAux s.toList
-
-def bytesLt : Bytes → Bytes → Bool
-  | [], [] => false
-  | [], _ :: _ => true
-  | _ :: _, [] => false
-  | a :: r, b :: s => if a < b then true else if b < a then false else bytesLt r s
-
-def strictlySorted : List Bytes → Bool
-  | [] => true
-  | [_] => true
-  | a :: b :: r => bytesLt a b && strictlySorted (b :: r)
-
-def allSome {α : Type} : List (Option α) → Option (List α)
-  | [] => some []
-  | none :: _ => none
-  | some a :: r => (allSome r).map (a :: ·)
-
-def parseIntList (s : String) : Option (List Int) :=
-  if s = "" then some [] else allSome ((s.splitOn ".").map String.toInt?)
-
-/-- `c1.2.-3` / `c` -/
-def parseVals (s : String) : Option (List Int) :=
-  match s.toList with
-  | 'c' :: r => parseIntList (String.ofList r)
-  | _ => none
-
-def parseEmitMeta (s : String) : Option (List (Bytes × Bytes)) :=
-  if s = "" then some [] else
-  match allSome ((s.splitOn ",").map fun kv =>
-      match kv.splitOn "=" with
-      | [k, v] => match hexBytes? k, hexBytes? v with
-        | some kb, some vb => some (kb, vb)
-        | _, _ => none
-      | _ => none) with
-  | some l => if strictlySorted (l.map (·.1)) then some l else none
-  | none => none
-
-def parseFlag (s : String) : Option Bool :=
-  if s = "0" then some false else if s = "1" then some true else none
-
-def parseAct (a : String) : Option Act :=
-  match a.toList with
-  | 'l' :: r => (String.ofList r).toNat?.map Act.log
-  | 'r' :: r => (String.ofList r).toNat?.map Act.fail
-  | 'p' :: r => (String.ofList r).toNat?.map Act.panic
-  | 'f' :: r => (parseFlag (String.ofList r)).map Act.finish
-  | 'e' :: r =>
-    match (String.ofList r).splitOn ":" with
-    | [p, src, md] =>
-      match parseFlag p, parseEmitMeta md with
-      | some prop, some m =>
-        match src.toList with
-        | 'c' :: vs => (parseIntList (String.ofList vs)).map fun l => Act.emit (.const l) m prop
-        | 'i' :: n => (String.ofList n).toInt?.map fun k => Act.emit (.input k) m prop
-        | _ => none
-      | _, _ => none
-    | _ => none
-  | _ => none
-
-def parseTick (t : String) : Option Tick :=
-  if t = "_" then some [] else allSome ((t.splitOn ";").map parseAct)
-
-def parseProg (p : String) : Option (List Tick) :=
-  if p = "-" then some [] else allSome ((p.splitOn "/").map parseTick)
-
-def parseCancel (s : String) : Option CancelAct :=
-  if s = "absent" then some .absent else if s = "ok" then some .ok
-  else if s = "err" then some .err else if s = "panic" then some .panic else none
-
-def parseKind (s : String) : Option Bool :=
-  if s = "ex" then some false else if s = "pr" then some true else none
-
-/-- a symbolic reference to a token that was never handed out stands for a literal that cannot
-open (the harness substitutes the same literal) -/
-def neverMinted (sym : String) : Val := .lit (bytesOfString ("never-minted-" ++ sym))
-
-def parseVal (w : World) (s : String) : Option Val :=
-  match s.toList with
-  | 'x' :: r => (bytesOfHexAux r).map Val.lit
-  | 'T' :: r => (String.ofList r).toNat?.map fun i => if i < w.minted.length then .cursor i else neverMinted s
-  | 'C' :: r => (String.ofList r).toNat?.map fun c => if c < w.calls then .call c else neverMinted s
-  | _ => none
-
-def parseMetaWord (w : World) (s : String) : Option (Bytes × Val) :=
-  match s.splitOn "=" with
-  | [k, v] => match hexBytes? k, parseVal w v with
-    | some kb, some vv => some (kb, vv)
-    | _, _ => none
-  | _ => none
-
-def parseMetaWords (w : World) (ws : List String) : Option Meta := allSome (ws.map (parseMetaWord w))
-
-def parseKV (key : String) (s : String) : Option Nat :=
-  match s.splitOn "=" with
-  | [k, v] => if k = key then v.toNat? else none
-  | _ => none
-
-/-! ### rendering (must agree with `harness/c16_env.go`) -/
-
-def errName : Err → String
-  | .handler k => s!"handler{k}"
-  | .panic k => s!"panic{k}"
-  | .noData => "noData"
-  | .secondEmit => "secondEmit"
-  | .finishExchange => "finishExchange"
-  | .capWire => "capWire"
-  | .capExt => "capExt"
-  | .missingToken => "missingToken"
-  | .badToken => "badToken"
-  | .wrongMethod => "wrongMethod"
-  | .missingCall => "missingCall"
-  | .badCall => "badToken"       -- indistinguishable on the wire ("Malformed state token")
-  | .cast => "cast"
-
-def showInts (l : List Int) : String := ".".intercalate (l.map toString)
-
-def showCursor (w : World) (i : Nat) : String :=
-  match w.minted[i]? with
-  | some c => s!"T{i}(c{c.call},p{c.st.pos})"
-  | none => s!"T{i}"
-
-def showFirst (w : World) : Option Val → String
-  | none => "-"
-  | some (.lit b) => "x" ++ hexOfBytes b
-  | some (.cursor i) => showCursor w i
-  | some (.call c) => s!"C{c}"
-
-def showLits (m : Meta) : String :=
-  ",".intercalate (m.filterMap fun kv => match kv.2 with
-    | .lit b => some (hexOfBytes kv.1 ++ "=" ++ hexOfBytes b)
-    | _ => none)
-
-def showData (w : World) (vals : List Int) (m : Meta) : String :=
-  "D[" ++ showInts vals ++ "]{" ++ showLits m ++ "}^" ++ showFirst w (getFirst keyState m) ++ "~" ++
-    showFirst w (getFirst keyCall m)
-
-def showBatch (w : World) : RBatch → String
-  | .log m => s!"L{m}"
-  | .exc e => "X:" ++ errName e
-  | .data vals m => showData w vals m
-  | .token m => showData w [] m
-
-def showList (l : List String) : String := if l.isEmpty then "-" else ",".intercalate l
-
-def showSeenVal : Val → String
-  | .lit b => "x" ++ hexOfBytes b
-  | .cursor i => s!"T{i}"
-  | .call c => s!"C{c}"
-
-def showSeen (m : Meta) : String :=
-  "{" ++ ",".intercalate (m.map fun kv => hexOfBytes kv.1 ++ "=" ++ showSeenVal kv.2) ++ "}"
-
-def showEvent (withSeen : Bool) : Event → String
-  | .exchange pos seen input => s!"E{pos}" ++ showSeen seen ++ "[" ++ showInts input ++ "]"
-  | .produce pos seen => if withSeen then s!"P{pos}" ++ showSeen seen else s!"P{pos}"
-  | .cancel => "K"
-
-def showResp (w : World) (r : Resp) (evs : List Event) (withSeen : Bool) : String :=
-  toString r.status ++ (if r.rpcErr then "E" else "") ++ " " ++ showList (r.batches.map (showBatch w)) ++
-    " | " ++ showList (evs.map (showEvent withSeen))
+open Vgi Vgi.HttpStream Vgi.Generated.C16 Vgi.Drive.StreamIO
 
 /-! ### the driver -/
 
@@ -193,9 +28,6 @@ def parseCfg (ws : List String) : Option Cfg :=
           else none
         | none => none
       | _ => none) (some defaultCfg)
-
-def schemaOk? (s : String) : Option Bool :=
-  if s = "ok" || s = "cast" then some true else if s = "bad" || s = "empty" then some false else none
 
 def step (st : St) (ws : List String) : St × String :=
   let cfg := st.cfg.getD defaultCfg
